@@ -59,6 +59,9 @@ def case_strategy(draw: Any) -> Dict[str, Any]:
         # *.failed sent from a child task of the application's own task group: the error the
         # server raises in that send reaches it wrapped in an exception group
         "in_group": draw(st.sampled_from([False, False, True])),
+        # after startup.failed the application spends this long on awaited clean-up before
+        # its coroutine ends (the failure has been announced all the same)
+        "linger": draw(st.sampled_from([0.0, 0.0, 0.5, 2.0])),
     }
     if case["startup"] in ("raise", "return_early") and draw(st.booleans()):
         # the application leaves the lifespan scope at once, before the server has sent it
@@ -83,8 +86,11 @@ def lifespan_program(case: Dict[str, Any]) -> list:
     if s == "complete":
         prog.append(["send", {"type": "lifespan.startup.complete"}])
     elif s == "failed":
-        prog.append(["send_in_group" if case.get("in_group") else "send",
-                     _failed("lifespan.startup.failed", case)])
+        if case.get("linger") and not case.get("in_group"):
+            prog.append(["send_linger", _failed("lifespan.startup.failed", case), case["linger"]])
+        else:
+            prog.append(["send_in_group" if case.get("in_group") else "send",
+                         _failed("lifespan.startup.failed", case)])
         return prog
     elif s == "raise":
         prog.append(["raise", "ValueError"])
@@ -211,9 +217,15 @@ def judge(case: Dict[str, Any], res: Any) -> None:
         name = type(res.serve_exc).__name__
         inner = repr(res.serve_exc)
         want = "LifespanFailureError" if s == "failed" else "LifespanTimeoutError"
+        slack = case.get("linger", 0.0) if s == "failed" and not case.get("in_group") else 0.0
+        if s == "failed" and want_at + slack >= case["startup_timeout"] - 1e-6 and \
+                "LifespanTimeoutError" in name + inner:
+            # the application was still busy leaving when the startup time-out ran out: the
+            # server may report that instead - aborted with an error either way
+            want, want_at, slack = "LifespanTimeoutError", case["startup_timeout"], 0.0
         if want not in name and want not in inner:
             raise Violation("startup_failure_wrong_error", f"{inner}", **tag)
-        if abs(res.serve_returned_at - want_at) > 1e-6:
+        if not want_at - 1e-6 <= res.serve_returned_at <= want_at + slack + 1e-6:
             raise Violation("startup_failure_time", f"serve() raised at t={res.serve_returned_at}"
                             f", expected {want_at}", **tag)
         if https or connected:
